@@ -552,6 +552,35 @@ func (g *Gen) genFamily(fam string) (Op, bool) {
 		return g.opNew(g.pickDt(), g.pickShape(4)), true
 
 	case "access":
+		if g.c18 && len(w.sparse) > 0 && r.Intn(2) == 0 {
+			return Op{Name: "SparseRead", I: []int{r.Intn(4), r.Intn(5)}, Out: g.newSlot()}, true
+		}
+		if !g.c18 && !g.big && r.Intn(5) == 0 {
+			// sparse matrices that live on: built with a caller's shape list, transposed, read (C19)
+			if len(w.sparse) == 0 || (len(w.sparse) < 3 && r.Intn(3) == 0) {
+				rows, cols := 1+r.Intn(4), 1+r.Intn(4)
+				I := []int{rows, cols}
+				for m := 0; m < 4; m++ {
+					I = append(I, r.Intn(16))
+				}
+				// what follows a construction: a read, perhaps a second matrix, a transposition, reads of both
+				g.queue = append(g.queue, Op{Name: "SparseRead", I: []int{r.Intn(4), r.Intn(5)}, Out: g.newSlot()})
+				if r.Intn(2) == 0 {
+					I2 := []int{1 + r.Intn(4), 1 + r.Intn(4), r.Intn(16), r.Intn(16), r.Intn(16), r.Intn(16)}
+					if r.Intn(2) == 0 {
+						I2[0], I2[1] = rows, cols
+					}
+					g.queue = append(g.queue, Op{Name: "NewCS", S: []string{"float64", "int", "float32"}[r.Intn(3)], I: I2, N: r.Intn(2), F: float64(r.Intn(900)), Out: -1})
+				}
+				g.queue = append(g.queue, Op{Name: "SparseT", I: []int{r.Intn(4), r.Intn(2)}, Out: -1},
+					Op{Name: "SparseRead", I: []int{0, r.Intn(5)}, Out: g.newSlot()}, Op{Name: "SparseRead", I: []int{1, r.Intn(5)}, Out: g.newSlot()})
+				return Op{Name: "NewCS", S: []string{"float64", "int", "float32"}[r.Intn(3)], I: I, N: r.Intn(2), F: float64(r.Intn(900)), Out: -1}, true
+			}
+			if r.Intn(3) == 0 {
+				return Op{Name: "SparseT", I: []int{r.Intn(4), r.Intn(2)}, Out: -1}, true
+			}
+			return Op{Name: "SparseRead", I: []int{r.Intn(4), r.Intn(5)}, Out: g.newSlot()}, true
+		}
 		a := g.pick(nil)
 		t := w.get(a)
 		switch r.Intn(6) {
